@@ -3,6 +3,7 @@
 package valid
 
 import (
+	"reflect"
 	"strings"
 	"time"
 )
@@ -36,11 +37,35 @@ func vPctEncode(s string) string {
 	return out
 }
 
+// vFormEncode: application/x-www-form-urlencoded -- '+' for a blank, %XX for every other byte
+func vFormEncode(s string) string {
+	out := ""
+	for i := 0; i < len(s); i++ {
+		if s[i] == ' ' {
+			out += "+"
+		} else {
+			out += string([]byte{'%', vHex(s[i] >> 4), vHex(s[i] & 15)})
+		}
+	}
+	return out
+}
+
 func vC18String(i int, max int) {
 	rule := vC18Rules[i].rule
 	tag := "C18 " + vC18Rules[i].name + "/string"
 	rm := NewRule().Set("k", rule)
-	switch vndChoice("carrier", 8) {
+	switch vndChoice("carrier", 10) {
+	case 8: // form encoding: a blank travels as '+', every other byte as %XX
+		v := vndString("v", max)
+		want := Var(v, rule) != nil
+		got := Url("http://h/p?k="+vFormEncode(v), rm) != nil
+		vAssert(got == want, tag+": form-encoded URL parameter ('+' for a blank) vs Var")
+	case 9: // a parameter name that needs encoding itself ("a b" written a+b or a%20b)
+		v := vndString("v", max)
+		want := Var(v, rule) != nil
+		name := []string{"a+b", "a%20b", "%61%20b"}[vndChoice("name", 3)]
+		got := Url("http://h/p?"+name+"="+vPctEncode(v), NewRule().Set("a b", rule)) != nil
+		vAssert(got == want, tag+": URL parameter whose name is encoded vs Var")
 	case 7: // the whole URL percent-encoded once (no literal '?'): decoded once, then split
 		v := vndString("v", max)
 		vAssume(vAnd(vAnd(vNoByte(v, '&'), vNoByte(v, '=')), vNoByte(v, '?')))
@@ -359,6 +384,58 @@ func H_C18_rule_lists_contained() {
 		vAssert(vCountClauses(Map(map[string]string{"k": v}, rm)) == want, tag+": map entry, one Set call per rule")
 	case 3:
 		vAssert(vCountClauses(Url("h?k="+vPctEncode(v), NewRule().Set("k", rules...))) == want, tag+": URL parameter")
+	}
+	vReach("end")
+}
+
+// ---- round 4 ----
+
+// the verdict through the struct carrier is the rule's verdict whatever earlier calls did on the same type or
+// with the same rule name: a call with a supplied rule, then a plain call judged by the tag rule; a variable
+// validated with a per-call function named like a built-in, then the built-in through every carrier
+type vC18Tagged struct {
+	F string `valid:"int"`
+}
+
+func H_C18_struct_after_supplied_rule() {
+	vPoolMode("lifo")
+	v1, v2 := vndString("v1", 2), vndString("v2", 2)
+	e1 := Struct(&vC18Tagged{F: v1}, NewRule().Set("F", "prefix=a"))
+	vAssert((e1 != nil) == (Var(v1, "prefix=a") != nil), "C18 sequence: struct field under a supplied rule vs Var")
+	e2 := Struct(&vC18Tagged{F: v2})
+	vAssert((e2 != nil) == (Var(v2, "int") != nil), "C18 sequence: struct field under its tag rule after a call with a supplied rule vs Var")
+	vReach("end")
+}
+
+func H_C18_builtin_after_local_fn() {
+	vPoolMode("lifo")
+	v1, v2 := vndString("v1", 2), vndString("v2", 2)
+	vAssume(len(v1) > 0)
+	always := func(errBuf *strings.Builder, validName, objName, fieldName string, tv reflect.Value) {
+		errBuf.WriteString("local int says no" + ErrEndFlag)
+	}
+	switch vndChoice("first", 3) {
+	case 0:
+		e1 := NewVVar().SetValidFn("int", always).SetRules("int").Valid(v1)
+		vAssert(e1 != nil, "C18 sequence: the per-call function decides its own call")
+	case 1:
+		e1 := StructForFns(&vC18S{F: v1}, NewRule().Set("F", "int"), Name2FnMap{"int": always})
+		vAssert(e1 != nil, "C18 sequence: the per-call function decides its own call")
+	case 2:
+		e1 := MapFn(map[string]string{"k": v1}, NewRule().Set("k", "int"), Name2FnMap{"int": always})
+		vAssert(e1 != nil, "C18 sequence: the per-call function decides its own call")
+	}
+	want := len(v2) > 0 && vRuleViolated(Int, "int", v2)
+	rm := NewRule().Set("k", "int")
+	switch vndChoice("second", 4) {
+	case 0:
+		vAssert((Var(v2, "int") != nil) == want, "C18 sequence: Var uses the built-in after a call with a per-call function of that name")
+	case 1:
+		vAssert((Struct(&vC18S{F: v2}, NewRule().Set("F", "int")) != nil) == want, "C18 sequence: Struct uses the built-in after a call with a per-call function of that name")
+	case 2:
+		vAssert((Map(map[string]string{"k": v2}, rm) != nil) == want, "C18 sequence: Map uses the built-in after a call with a per-call function of that name")
+	case 3:
+		vAssert((Url("h?k="+vPctEncode(v2), rm) != nil) == want, "C18 sequence: Url uses the built-in after a call with a per-call function of that name")
 	}
 	vReach("end")
 }
